@@ -27,7 +27,11 @@ import (
 	"sync"
 	"time"
 
+	"github.com/simimpact/srsim/pkg/engine/equip/lightcone"
+	"github.com/simimpact/srsim/pkg/engine/equip/relic"
 	"github.com/simimpact/srsim/pkg/engine/logging"
+	"github.com/simimpact/srsim/pkg/engine/target/character"
+	"github.com/simimpact/srsim/pkg/engine/target/enemy"
 	"github.com/simimpact/srsim/pkg/logic/gcs/eval"
 	"github.com/simimpact/srsim/pkg/logic/gcs/parse"
 	"github.com/simimpact/srsim/pkg/model"
@@ -170,6 +174,16 @@ func errClass(msg string) string {
 	return "other"
 }
 
+func invalidWhat(msg string) string {
+	m := strings.ToLower(msg)
+	for _, w := range []string{"character", "lightcone", "relic", "enemy"} {
+		if strings.Contains(m, "invalid "+w) || strings.Contains(m, "invalid_"+w) {
+			return w
+		}
+	}
+	return "?"
+}
+
 func outRec(name string, o *realOut) *wire.Rec {
 	r := wire.R(name).S("kind", o.kind).I("events", len(o.lines)).S("digest", o.digest())
 	if o.kind == "result" {
@@ -239,7 +253,15 @@ func (realComp) Exec(c *wire.Case, w *wire.Writer) {
 		switch op.Name {
 		case "run":
 			o := realRun(op, true)
+			w.Ob(wire.R("registry").Ss("chars", character.VerifRegistered()).Ss("lcs", lightcone.VerifRegistered()).Ss("relics", relic.VerifRegistered()).Ss("enemies", enemy.VerifRegistered()))
 			w.Ob(outRec("out", o))
+			// the verdict of the configuration check as the implementation reports it
+			if o.kind == "error" && errClass(o.msg) == "invalid-key" {
+				bad := o.msg[strings.LastIndex(o.msg, ":")+1:]
+				w.Ob(wire.R("valid").B("ok", false).S("bad", strings.TrimSpace(strings.ReplaceAll(bad, "_", " "))).S("what", invalidWhat(o.msg)))
+			} else {
+				w.Ob(wire.R("valid").B("ok", true).S("bad", "-").S("what", "-"))
+			}
 			prev = append(prev, op)
 		case "repeat":
 			first := realRun(op, true)
